@@ -127,6 +127,8 @@ GEN = {
     "BLANK": lambda r: " " * r.randint(1, 5),
     "TEXT": lambda r: "zq" + " ".join(_word(r) for _ in range(r.randint(1, 4))),
     "UNICODE": lambda r: "zq" + "".join(r.choice("αβγδжзийलोग中文日本語éüß") for _ in range(r.randint(1, 8))),
+    "METATEXT": lambda r: r.choice(["{read}", "{", "}", "{}", "{0}", "{0.x}", "{!r}", "read}", "{{", "%s", "%(name)s", "%", "100%", "\\", "\\N", "{node.content}", "$x", "${x}",
+                                    "{" + _word(r) + "}", "%" + _word(r), _word(r) + "}" , "{:>" + str(r.randint(1, 9)) + "}"]),
     "SURROGATE": lambda r: "zq" + r.choice(["\ud800", "\udfff", "a\udc00b"]),
     "INT4": lambda r: _int_in(r, 1000, 9999),
     "SCI": lambda r: r.choice(["1e2", "1E2", "1.5e2", "1.25E2", "1.79e2", "0.95e2", f"1.{r.randint(0, 7)}{r.randint(0, 9)}e2"]),
